@@ -17,9 +17,10 @@ RULE = ("metamorphic pairs on the real code. At Q (exact equality of rationals):
         "Mixed; in range and extrapolated. At f64 bit-for-bit: data x 2^k (k in -20..20), negation, axis x 2^k, shifts on a common dyadic "
         "grid; superpositions within tolerance. base cases also go through the model correspondence. non-trivial = pair whose two cases "
         "differ")
-PARTIAL = ["spline: proved are homogeneity/additivity of the tridiagonal solve in its right-hand sides (C15_spline_solver_scale, Lemmas/Linearity) "
-           "and all Linear/Bilinear statements; the end-to-end spline statements (assembly + evaluation, axis scaling by uniqueness) are "
-           "checked exactly at Q by the metamorphic runs, not yet stated as theorems",
+PARTIAL = ["spline, proved end to end (assembly + solve + evaluation) for every non-periodic boundary pair: data x c (C15_spline_scale_data), common "
+           "shift (C15_spline_shift), axis x c>0 with converted boundary values (C15_spline_scale_axis, by uniqueness C03_unique); spline "
+           "superposition is proved for the solver in its right-hand sides (fwd_add/back_add, Lemmas/Linearity) but not yet lifted through the "
+           "row assembly, and the Periodic scalings are not stated as theorems: both are checked exactly at Q by the metamorphic runs",
            "bit-for-bit at f64 rests on exact power-of-two scaling absent over/underflow (C15_hom_linear_data states the data-flow part)"]
 ASSUMPTIONS = ["no overflow/underflow for the f64 bitwise runs (magnitudes kept moderate)"]
 
